@@ -70,7 +70,9 @@ def handle (args : List String) : String :=
       s!"M {lt a b} {le a b}\tS {spec}"
     | _, _, _, _, _ => "bad-op"
   | "blk" :: _rate :: ops =>
-    match ops.mapM parseTimeOp with
+    -- `K` / `k`: the block is replaced by a copy of itself (copy construction / assignment): a copy has the same time members,
+    -- so the model's history is the history without these steps
+    match (ops.filter fun o => o != "K" && o != "k").mapM parseTimeOp with
     | none => "bad-op"
     | some ops =>
       let b := runTime BlockTime.init ops
